@@ -449,12 +449,16 @@ func (c *ctxConn) Write(b []byte) (n int, err error) {
 			return 0, err
 		}
 
-		n, err = c.conn.Write(b)
+		// A write interrupted by a timeout may have sent part of the data:
+		// go on with what is left instead of sending it all again.
+		var written int
+		written, err = c.conn.Write(b[n:])
+		n += written
 		if err != nil {
 			if netErr, ok := err.(net.Error); ok && netErr.Timeout() && netErr.Temporary() {
 				continue
 			}
-			return 0, err
+			return n, err
 		}
 
 		return n, nil
